@@ -8,7 +8,8 @@ chk("C19", "proof",
     "filters are the known names of the command line in order, configured from their section; document_lang of the configuration in force "
     "overrides the language; for 16 of the 19 documented keys the decoder accepts a non-null JSON value iff README documents it, outside the "
     "executable triggers of three recorded findings (refutations in coq/Findings/C19.v); colours and font stacks only in part "
-    "(non-strings rejected; named colours, #rrggbb[aa], single family names accepted). NOT proved, established by differential execution "
+    "(non-strings rejected; every documented colour below the int() digit limit accepted; single family names accepted; the converse for colour "
+    "strings and multi-family / quoted font stacks are compared, not proved). NOT proved, established by differential execution "
     "on every run: that the bytes written by the real `tt` process equal the library pipeline executed on that plan, and that they do not "
     "depend on PYTHONHASHSEED, progress/log settings or earlier conversions in the same interpreter (M is pure, so this half is testing).",
     "Tie of M to the code: (1) tables regenerated from the source and the running CPython (file types, filter registry, dataclass fields, "
